@@ -381,6 +381,25 @@ def ob_json_event_data(kind):
                   raise Refuted("%s coalescent built from JSON event data (%s): model returns %.12f, Kingman density of the given times %.12f"
                                 % (kind, form, got, want), witness={"kind": kind, "form": form},
                                 replay={"kind": "custom", "contract": "C08", "func": "replay_json_event_data", "args": {"kind": kind}}, confirmed=True)
+              # the specification belongs to the caller: the SAME dict object, given other event data, is a new specification
+              # (a template reused across data sets, a loop over time units): the second model is the Kingman density of the second data
+              c = 2.5
+              times2 = [c * t_ for t_ in times]
+              if form == "times":
+                  d["times"] = times2
+              else:
+                  d["intervals"] = [b - a for a, b in zip(times2[:-1], times2[1:])]
+              d["id"] = d["id"] + "_again"
+              keys_before = sorted(k_ for k_ in d if k_ not in ("times", "intervals"))
+              m2 = process_object(d, {})
+              got2 = float(m2().reshape(-1)[0])
+              want2 = float(kingman.log_density([c * t_ for t_ in tips], [c * t_ for t_ in coal], demo()))
+              n += 1
+              if abs(got2 - want2) > tol * max(1.0, abs(want2)):
+                  raise Refuted("%s coalescent built a second time from the same specification dict with new %s (all times x %s): model returns %.12f, Kingman density of the "
+                                "given times %.12f (the first construction left keys %s in the caller's dict)" % (kind, form, c, got2, want2, sorted(set(d) - set(keys_before) - {"times", "intervals"}) or sorted(d)),
+                                witness={"kind": kind, "form": form, "reuse": True},
+                                replay={"kind": "custom", "contract": "C08", "func": "replay_json_event_data", "args": {"kind": kind}}, confirmed=True)
         return {"backend": "heap", "cases": n, "statement": "%s from JSON event data (times / intervals): Kingman density of exactly the given times" % kind}
     return Ob("C08.json_event_data[%s]" % kind, "B", body, clause="the density is that of the genealogy given in the specification (event-data form, float64)", funcs=FUNCS)
 
